@@ -15,7 +15,13 @@ def run(tier):
     rnd = random.Random(common.seed() + 12)
     n = 160 if tier == 'quick' else 3000
     jobs = []
-    for k, j in enumerate(ec.random_jobs(rnd, n, label='rerun', gen_kw=dict(partial_joins=False, p_err=0.45, p_items=0.2, p_sub=0.15, p_retry=0.1, p_cmd=0.03))):
+    gk = dict(partial_joins=False, p_err=0.45, p_items=0.2, p_sub=0.15, p_retry=0.1, p_cmd=0.03)
+    base = ec.random_jobs(rnd, n, label='rerun', gen_kw=gk)
+    # the rerun-then-pause histories use plain action tasks, so that the language semantics (WfSemantics) can
+    # prescribe the outcome of the whole run
+    plain = ec.random_jobs(rnd, n, label='rerunp', gen_kw=dict(gk, p_items=0.0, p_sub=0.0, p_retry=0.0, p_cmd=0.0))
+    for k in range(n):
+        j = plain[k] if k % 5 == 4 else base[k]
         P = j['prog']
         # second attempt outcome: succeed / fail again
         for tag, oc in list(P.oracle.items()):
@@ -23,22 +29,26 @@ def run(tier):
                 P.oracle[tag] = oc + [rnd.choice(['ok', 'ok', 'err'])]
             elif isinstance(oc, dict):
                 P.oracle[tag] = {i: (v + [rnd.choice(['ok', 'ok', 'err'])] if v[-1] == 'err' else v) for i, v in oc.items()}
-        kind = k % 4
+        kind = k % 5
         if kind == 0:
             j['ops'] = [dict(at=300, op='rerun', reset=True, pick=k)]
         elif kind == 1:
             j['ops'] = [dict(at=300, op='rerun', reset=False, pick=k)]
         elif kind == 2:
             j['ops'] = [dict(at=300, op='skip', pick=k)]
-        else:
+        elif kind == 3:
             j['ops'] = [dict(at=300, op='rerun', reset=True, pick=k), dict(at=600, op='rerun', reset=bool(k % 8 == 3), pick=k + 1)]
+        else:
+            # rerun, pause while the new attempt is running, results arrive while paused, resume
+            j['ops'] = [dict(at=300, op='rerun', reset=True, pick=k), dict(rel=rnd.randint(0, 3), op='pause'),
+                        dict(at=10 ** 6, op='resume')]
         j['max_steps'] = 900
         jobs.append(j)
     return ec.run_property(PID, tier, jobs,
                            'generated programs (plain, with-items, join, sub-workflow and retry tasks) run to rest, then an ERROR task is rerun '
                            '(reset on/off), skipped, or rerun twice, with a new outcome for the new attempt, and run to rest again; non-trivial = '
                            'distinct runs with an accepted rerun/skip',
-                           _nontrivial)
+                           _nontrivial, prescribed=True)
 
 
 def replay(path):
